@@ -60,4 +60,8 @@ def extra(ctx, res):
             res.add("F-LAYERS", v.fi.short, norm(lp.iter), "accumulate", "ok" if augs or adds else ("violation" if wrong else "unknown"), "" if augs or adds else "per-layer weights are not summed", loc(v.fi, lp))
     with res.guard("check_filter_clientsctx, res, DEGREE:2"):
         check_filter_clients(ctx, res, DEGREE[:2])
+    with res.guard("general lint pack over the property's files"):
+        from ..lints import check_pack
+
+        check_pack(ctx, res, "C04")
     return res
